@@ -1700,7 +1700,11 @@ class _PeriodicBC(ConstBC1stOrderBase):
             raise NotImplementedError(msg)
 
         return self.__class__(
-            grid=subgrid, axis=self.axis, upper=self.upper, flip_sign=self.flip_sign
+            grid=subgrid,
+            axis=self.axis,
+            upper=self.upper,
+            rank=self.rank,
+            flip_sign=self.flip_sign,
         )
 
     def get_mathematical_representation(self, field_name: str = "C") -> str:
